@@ -37,13 +37,17 @@ extern "C" int h_c06() {
   } else if (mode == 2) {          // point column
     std::vector<Frame> v;
     for (int f = 0; f < n; ++f) { Frame fr; Points pts; Point p; p.name("newp"); p.x(__vp_sym_f32("col")); p.y(__vp_sym_f32("col")); p.z(__vp_sym_f32("col")); p.residual(__vp_sym_f32("col")); pts.point(p); fr.add(pts); v.push_back(fr); }
+    if (__vp_cfg("surplus")) { Point s; s.name("stray"); s.x(__vp_sym_f32("col")); v[n - 1].points_nonConst().point(s); }   // the last frame of the argument carries one point more than the column asked for
     __vp_tag("given"); for (int f = 0; f < n; ++f) dump_frame(v[f], true);
-    c.point(v);
+    __vp_tag("call");
+    try { c.point(v); __vp_obs_u64("refused", 0); } catch (std::exception&) { __vp_obs_u64("refused", 1); }
   } else if (mode == 3) {          // channel column
     std::vector<Frame> v;
     for (int f = 0; f < n; ++f) { Frame fr; Analogs ana; for (int s = 0; s < S; ++s) { SubFrame sf; Channel ch; ch.name("newa"); ch.data(__vp_sym_f32("col")); sf.channel(ch); ana.subframe(sf); } fr.add(ana); v.push_back(fr); }
+    if (__vp_cfg("surplus")) { Channel s; s.name("stray"); s.data(__vp_sym_f32("col")); v[n - 1].analogs_nonConst().subframe_nonConst(0).channel(s); }
     __vp_tag("given"); for (int f = 0; f < n; ++f) dump_frame(v[f], true);
-    c.analog(v);
+    __vp_tag("call");
+    try { c.analog(v); __vp_obs_u64("refused", 0); } catch (std::exception&) { __vp_obs_u64("refused", 1); }
   } else if (mode == 4) {          // declare a point by name on existing data: a zero column
     c.point("newp");
   } else if (mode == 5) {
@@ -83,28 +87,31 @@ extern "C" int h_c06_data() {
 
 // C06 kernel: the same append / resize-then-assign idiom of Points, Analogs and SubFrame with a free index
 extern "C" int h_c06_inner() {
-  const int kind = __vp_cfg("kind"), n = __vp_cfg("n"), append = __vp_cfg("append");
+  const int kind = __vp_cfg("kind"), n = __vp_cfg("n"), append = __vp_cfg("append"), self = __vp_cfg("self");   // self: the element handed over is element 0 of the collection itself
   unsigned long idx = append ? SIZE_MAX : __vp_sym_u64("idx");
   if (!append) __vp_assume(idx <= (unsigned long)n + __vp_cfg("beyond"));
   __vp_tag("in");
   if (kind == 0) {
     Points c; for (int i = 0; i < n; ++i) { Point p; float v = __vp_sym_f32("v"); p.x(v); p.residual(v); __vp_obs_f32("in", v); c.point(p); }
-    Point q; float w = __vp_sym_f32("w"); q.x(w); q.residual(w); q.name("new"); __vp_obs_f32("new", w); __vp_obs_u64("idx", idx);
-    if (append) c.point(q); else c.point(q, idx);
+    Point q; float w = __vp_sym_f32("w"); q.x(w); q.residual(w); q.name("new"); __vp_obs_f32("new", self ? ((const Points&)c).point(0).x() : w); __vp_obs_u64("idx", idx);
+    const Point& arg = self ? ((const Points&)c).point(0) : q;
+    if (append) c.point(arg); else c.point(arg, idx);
     __vp_tag("out"); __vp_obs_u64("count", c.nbPoints());
     const Points& cc = c;
     for (size_t i = 0; i < cc.nbPoints(); ++i) { __vp_obs_f32("x", cc.point(i).x()); __vp_obs_f32("r", cc.point(i).residual()); __vp_obs_f32("y", cc.point(i).y()); }
   } else if (kind == 1) {
     Analogs c; for (int i = 0; i < n; ++i) { SubFrame sf; Channel ch; float v = __vp_sym_f32("v"); ch.data(v); sf.channel(ch); __vp_obs_f32("in", v); c.subframe(sf); }
-    SubFrame q; Channel ch; float w = __vp_sym_f32("w"); ch.data(w); q.channel(ch); __vp_obs_f32("new", w); __vp_obs_u64("idx", idx);
-    if (append) c.subframe(q); else c.subframe(q, idx);
+    SubFrame q; Channel ch; float w = __vp_sym_f32("w"); ch.data(w); q.channel(ch); __vp_obs_f32("new", self ? ((const Analogs&)c).subframe(0).channel(0).data() : w); __vp_obs_u64("idx", idx);
+    const SubFrame& arg = self ? ((const Analogs&)c).subframe(0) : q;
+    if (append) c.subframe(arg); else c.subframe(arg, idx);
     __vp_tag("out"); __vp_obs_u64("count", c.nbSubframes());
     const Analogs& cc = c;
     for (size_t i = 0; i < cc.nbSubframes(); ++i) { __vp_obs_u64("n", cc.subframe(i).nbChannels()); if (cc.subframe(i).nbChannels()) __vp_obs_f32("x", cc.subframe(i).channel(0).data()); }
   } else {
     SubFrame c; for (int i = 0; i < n; ++i) { Channel ch; float v = __vp_sym_f32("v"); ch.data(v); __vp_obs_f32("in", v); c.channel(ch); }
-    Channel q; float w = __vp_sym_f32("w"); q.data(w); q.name("new"); __vp_obs_f32("new", w); __vp_obs_u64("idx", idx);
-    if (append) c.channel(q); else c.channel(q, idx);
+    Channel q; float w = __vp_sym_f32("w"); q.data(w); q.name("new"); __vp_obs_f32("new", self ? ((const SubFrame&)c).channel(0).data() : w); __vp_obs_u64("idx", idx);
+    const Channel& arg = self ? ((const SubFrame&)c).channel(0) : q;
+    if (append) c.channel(arg); else c.channel(arg, idx);
     __vp_tag("out"); __vp_obs_u64("count", c.nbChannels());
     const SubFrame& cc = c;
     for (size_t i = 0; i < cc.nbChannels(); ++i) { __vp_obs_f32("x", cc.channel(i).data()); obs_str("name", cc.channel(i).name()); }
